@@ -32,6 +32,17 @@
 //! an operation interrupted by a panic before its result was known: [29].
 //! after the last operation: drop(world) with no fault armed -> [90 n uid*] (sorted: the order in
 //! which a World destroys its resources is unspecified).
+//!
+//! A history that starts with `81 0` is a CHANGESET history (specs::ChangeSet<Amt>, Amt = a value with
+//! a logged destructor whose `+=` adds the payloads and destroys its argument):
+//!  81 0               (first) a new ChangeSet                                           -> [7]
+//!   1 0               create_entity().build()                                           -> [1 id gen]
+//!   2 1 k             arm, as above
+//!  82 3 h uid val     ChangeSet::add(entity h, Amt(uid, val))                            -> [7]
+//!  85 0               ChangeSet::clear                                                  -> [7]
+//!  86 0               (&entities, &changeset).join()                                    -> [21 n (id uid val)*]
+//!  87 0               drop(changeset); a new one takes its place                        -> [7]
+//! after the last operation the changeset is dropped, no fault armed -> [90 ..].
 use crate::by_sid;
 use crate::comps::*;
 use specs::hibitset::BitSetLike;
@@ -323,9 +334,130 @@ fn effects(panicked: i64, sorted: bool) -> Out {
     o
 }
 
+/// the value type of the changeset: `+=` adds the payloads, the argument is destroyed
+pub struct Amt {
+    uid: u64,
+    val: i64,
+}
+impl Drop for Amt {
+    fn drop(&mut self) {
+        log_drop(self.uid);
+    }
+}
+impl std::ops::AddAssign for Amt {
+    fn add_assign(&mut self, rhs: Amt) {
+        self.val += rhs.val;
+    }
+}
+
+struct Cx {
+    world: World,
+    hs: Vec<Entity>,
+    cs: specs::changeset::ChangeSet<Amt>,
+}
+
+fn is_cs_destroying(code: i64) -> bool {
+    matches!(code, 82 | 85 | 87)
+}
+
+fn cs_exec(x: &mut Cx, code: i64, p: &[i64], out: &mut Out) {
+    *out = vec![29];
+    match (code, p.len()) {
+        (1, 0) => {
+            let e = x.world.create_entity().build();
+            x.hs.push(e);
+            *out = vec![1, e.id() as i64, e.gen().id() as i64];
+        }
+        (82, 3) => {
+            if p[0] < 0 || p[0] as usize >= x.hs.len() {
+                *out = vec![8];
+                return;
+            }
+            let e = x.hs[p[0] as usize];
+            x.cs.add(e, Amt { uid: p[1] as u64, val: p[2] });
+            *out = vec![7];
+        }
+        (85, 0) => {
+            x.cs.clear();
+            *out = vec![7];
+        }
+        (86, 0) => {
+            let ents = x.world.entities();
+            let l: Vec<(u32, u64, i64)> = (&ents, &x.cs).join().map(|(e, a)| (e.id(), a.uid, a.val)).collect();
+            let mut o = vec![21, l.len() as i64];
+            for (i, u, v) in l {
+                o.extend([i as i64, u as i64, v]);
+            }
+            drop(ents);
+            *out = o;
+        }
+        (87, 0) => {
+            let old = std::mem::replace(&mut x.cs, specs::changeset::ChangeSet::new());
+            *out = vec![7];
+            drop(old);
+        }
+        _ => *out = vec![8],
+    }
+}
+
+fn run_cs_history(ints: &[i64]) -> Vec<Out> {
+    let mut x = Cx { world: World::new(), hs: Vec::new(), cs: specs::changeset::ChangeSet::new() };
+    let mut tr = vec![vec![7], vec![10, 0, 0]];
+    let mut i = 2;
+    let mut armed: u64 = 0;
+    while i < ints.len() {
+        if i + 1 >= ints.len() {
+            tr.push(vec![8]);
+            break;
+        }
+        let code = ints[i];
+        let n = ints[i + 1].max(0) as usize;
+        if i + 2 + n > ints.len() {
+            tr.push(vec![8]);
+            break;
+        }
+        let p = &ints[i + 2..i + 2 + n];
+        i += 2 + n;
+        if code == 2 && n == 1 {
+            armed = p[0].max(0) as u64;
+            tr.push(vec![7]);
+            tr.push(vec![10, 0, 0]);
+            continue;
+        }
+        FAULT.with(|f| f.set(if is_cs_destroying(code) { armed } else { 0 }));
+        armed = 0;
+        let mut out: Out = vec![29];
+        let r = catch_unwind(AssertUnwindSafe(|| cs_exec(&mut x, code, p, &mut out)));
+        FAULT.with(|f| f.set(0));
+        let panicked = match r {
+            Ok(()) => 0,
+            Err(pl) => {
+                if pl.downcast_ref::<&str>().map_or(false, |s| *s == "armed destructor fault") {
+                    1
+                } else {
+                    2
+                }
+            }
+        };
+        tr.push(out);
+        tr.push(effects(panicked, false));
+    }
+    let Cx { world, hs: _, cs } = x;
+    let r = catch_unwind(AssertUnwindSafe(move || drop(cs)));
+    let mut fin = effects(if r.is_ok() { 0 } else { 2 }, true);
+    fin[0] = 90;
+    tr.push(fin);
+    drop(world);
+    let _ = take_effects();
+    tr
+}
+
 pub fn run_history(ints: &[i64]) -> Vec<Out> {
     let _ = take_effects();
     FAULT.with(|f| f.set(0));
+    if ints.len() >= 2 && ints[0] == 81 && ints[1] == 0 {
+        return run_cs_history(ints);
+    }
     let mut x = Ux { world: World::new(), hs: Vec::new() };
     let mut tr = Vec::new();
     let mut i = 0;
